@@ -440,6 +440,7 @@ def run_case(case, chooser=None, max_steps=1500):
     tbl.rt = rt
 
     def mklock():
+        ctl.gate('mklock')            # creating + storing the lock is a visible operation of its own
         rt.nlocks += 1
         lk = TLock(rt, rt.nlocks)
         rt.ev(rt.me(), 'mklock', lk.lid)
